@@ -557,3 +557,42 @@ def replay_ast_equal(p):
     b = outcome_of(lambda: parse_source(dec(p["b"])))
     same = a[0] == "value" and b[0] == "value" and a[1] is not None and a[1] == b[1]
     return {"reproduced": not same, "expected": "equal ASTs", "observed": "%s | %s" % (show(a)[:150], show(b)[:150])}
+
+
+@register("inert")
+def replay_inert(p):
+    """The code generated for `text` must be identical, up to constants, to the code generated for the
+    harmless variant, and compiling + evaluating it must not call a sentinel planted in builtins."""
+    import ast
+    import builtins
+    from pyab_experiment.utils.wraper_functions import generate_code
+    from pyab_experiment.experiment_evaluator import ExperimentEvaluator
+
+    def masked(code):
+        tree = ast.parse(code)
+        for node in ast.walk(tree):
+            if isinstance(node, ast.Constant):
+                node.value = "S" if isinstance(node.value, str) else 0
+        return ast.dump(tree)
+    problems = []
+    for expose in (False, True):
+        a = outcome_of(lambda: generate_code(p["text"], expose))
+        b = outcome_of(lambda: generate_code(p["harmless"], expose))
+        if a[0] != "value":
+            problems.append("code generation fails: %s" % show(a))
+            break
+        if b[0] == "value" and masked(a[1]) != masked(b[1]):
+            problems.append("generated code structure depends on the literal (expose=%s)" % expose)
+            break
+    calls = []
+    real_print = builtins.print
+    builtins.print = lambda *a, **k: calls.append(a)
+    try:
+        o = outcome_of(lambda: ExperimentEvaluator(p["text"])(uid="u1", fld="zz"))
+    finally:
+        builtins.print = real_print
+    if calls:
+        problems.append("evaluation called print%r" % (calls[0],))
+    if o[0] == "raise" and o[1] not in ("ExperimentConditionalFailedError",):
+        problems.append("compiling/evaluating raised %s" % o[1])
+    return {"reproduced": bool(problems), "expected": "literal is inert data", "observed": "; ".join(problems) or show(o)}
